@@ -26,12 +26,14 @@ type Layout struct {
 	Align     bool
 	Compact   bool // empty blocks as {}
 	FinalNL   bool
+	BareLabel bool // labels that are identifiers are written without quotes
+	LabelGap  string
 	rng       *rand.Rand
 }
 
 func newLayout(seed int64, variant int) *Layout {
 	r := rand.New(rand.NewSource(seed*131 + int64(variant)))
-	l := &Layout{rng: r, Indent: "  ", FinalNL: true}
+	l := &Layout{rng: r, Indent: "  ", FinalNL: true, LabelGap: " "}
 	switch variant % 4 {
 	case 0: // canonical
 	case 1:
@@ -43,12 +45,14 @@ func newLayout(seed int64, variant int) *Layout {
 		l.CommProb = 0.5
 		l.Compact = true
 		l.FinalNL = false
+		l.BareLabel = true
 	case 3:
 		l.Indent = " "
 		l.BlankProb = 0.3
 		l.CommProb = 0.3
 		l.Align = true
 		l.Compact = true
+		l.LabelGap = "   "
 	}
 	return l
 }
@@ -184,11 +188,14 @@ func (r *renderer) body(items []*AItem, path []int, depth int) {
 		e.Name = [2]int{r.sb.Len(), r.sb.Len() + len(it.Type)}
 		r.sb.WriteString(it.Type)
 		for li, lb := range it.Labels {
-			r.sb.WriteString(" ")
+			r.sb.WriteString(r.l.LabelGap)
 			q := strconv.Quote(lb)
+			if r.l.BareLabel && isIdent(lb) && lb[0] >= 'a' {
+				q = lb
+			}
 			e.Labels = append(e.Labels, [2]int{r.sb.Len(), r.sb.Len() + len(q)})
 			if r.cur != nil && r.cur.Kind == "label" && pathKey(r.cur.Path) == pathKey(p) && r.cur.Index == li {
-				r.at = r.sb.Len() + 1 + len(r.cur.Prefix)
+				r.at = r.sb.Len() + (len(q)-len(lb))/2 + len(r.cur.Prefix)
 			}
 			r.sb.WriteString(q)
 		}
